@@ -100,68 +100,49 @@ func cobsDecodeInplace(b []byte) (int, error) {
 // bytes and must end with a NULL byte. This Read blocks until we
 // get an entire packet or an error. b must be large enough to hold the entire packet.
 func (cw *CobsWrapper) Read(b []byte) (int, error) {
-	// we read data until we see a zero or hit the size of the b buffer
-	// current location in read buffer
-	var cur int
-
-	// first, process any leftover bytes looking for packets
-	if cw.readLeftover.Len() > 0 {
-		foundStart := false
-
+	for {
+		// look for a complete packet in the bytes we already have
 		lb := cw.readLeftover.Bytes()
-		for i := 0; i < len(lb); i++ {
-			if !foundStart {
-				if lb[i] == 0 {
-					continue
-				}
-				foundStart = true
-			}
-			if lb[i] == 0 {
-				// found end of packet, copy to read buffer and process
-				_, _ = cw.readLeftover.Read(b[0:i])
-				return cobsDecodeInplace(b[0:i])
-			}
+
+		// skip leading nulls
+		start := 0
+		for start < len(lb) && lb[start] == 0 {
+			start++
 		}
 
-		// write leftover bytes to beginning of buffer
-		bBuf := bytes.NewBuffer(b)
-		c, _ := bBuf.Write(cw.readLeftover.Bytes())
+		if i := bytes.IndexByte(lb[start:], 0); i >= 0 {
+			// found end of packet. Consume it, copy it to the read
+			// buffer framed by a leading and a trailing null (so the
+			// result does not depend on how the nulls were split
+			// across reads), and decode it in place.
+			end := start + i + 1
+			if end-start+1 > len(b) {
+				cw.readLeftover.Next(end)
+				return 0, ErrCobsTooMuchData
+			}
+			b[0] = 0
+			c := copy(b[1:], lb[start:end])
+			cw.readLeftover.Next(end)
+			return cobsDecodeInplace(b[0 : c+1])
+		}
 
-		cur += c
-	}
+		// no complete packet yet, drop the nulls we skipped
+		cw.readLeftover.Next(start)
 
-	foundStart := false
+		if cw.readLeftover.Len() >= len(b) ||
+			cw.readLeftover.Len() > cw.maxMessageLength {
+			cw.readLeftover.Reset()
+			return 0, ErrCobsTooMuchData
+		}
 
-	for {
-		c, err := cw.dev.Read(b[cur:])
+		// b is only used as scratch space here, the bytes
+		// are kept in readLeftover until a packet is complete
+		c, err := cw.dev.Read(b)
 		if err != nil {
 			return 0, err
 		}
 
-		if c > 0 {
-			// look for zero in buffer
-			for i := 0; i < c; i++ {
-				if !foundStart {
-					if b[cur+i] == 0 {
-						continue
-					}
-					foundStart = true
-				}
-				if b[cur+i] == 0 {
-					// found end of packet, decode in place
-					// first save off extra bytes
-					cw.readLeftover.Write(b[cur+i+1 : cur+c])
-
-					return cobsDecodeInplace(b[0 : cur+i+1])
-				}
-			}
-		}
-
-		cur += c
-
-		if cur >= len(b) || cur > cw.maxMessageLength {
-			return 0, ErrCobsTooMuchData
-		}
+		cw.readLeftover.Write(b[0:c])
 	}
 }
 
